@@ -32,10 +32,15 @@ def main(d):
     meta = json.load(open(os.path.join(d, "meta.json")))
     out = {"dir": d, "property": meta.get("property")}
     rc, o = sh("git status --porcelain", REPO)
-    if o.strip():
+    if o.strip() and o.strip() != "?? _seed/":
         print("refusing: /repo has local modifications:\n" + o)
         return 2
     env = dict(os.environ, PYTHONPATH=os.path.join(REPO, "src"))
+    # the demos were written to be run as <tree>/_seed/demo.py with the tree as working directory
+    os.makedirs(os.path.join(REPO, "_seed"), exist_ok=True)
+    import shutil
+    shutil.copy(demo, os.path.join(REPO, "_seed", "demo.py"))
+    demo = "_seed/demo.py"
     rc0, o0 = sh(f"{PY} {demo}", REPO, env=env)
     out["demo_unchanged_exit"] = rc0
     rc, o = sh(f"git apply --check {patch}", REPO)
@@ -43,6 +48,7 @@ def main(d):
     if rc != 0:
         out["apply_error"] = o[-400:]
         print(json.dumps(out, indent=1))
+        shutil.rmtree(os.path.join(REPO, "_seed"), ignore_errors=True)
         return 1
     try:
         sh(f"git apply {patch}", REPO)
@@ -67,7 +73,7 @@ def main(d):
         out["detected_by_own_property"] = meta.get("property") in fired and not all(k.startswith("ANALYSIS-ERROR") for k in fired[meta.get("property")])
     finally:
         sh("git checkout -- .", REPO)
-        sh("git clean -fdq test/dataset", REPO)
+        shutil.rmtree(os.path.join(REPO, "_seed"), ignore_errors=True)
     # restore evidence written by runs on the patched tree
     print(json.dumps(out, indent=1))
     return 0
